@@ -281,7 +281,13 @@ impl Multiboot2BasicHeader {
     /// Calculates the checksum as described in the spec.
     #[must_use]
     pub const fn calc_checksum(magic: u32, arch: HeaderTagISA, length: u32) -> u32 {
-        (0x100000000 - magic as u64 - arch as u64 - length as u64) as u32
+        // The checksum is defined modulo 2^32: magic + arch + length + checksum
+        // must wrap to zero. Plain subtraction from 2^32 underflows as soon as
+        // the sum of the three values exceeds 2^32.
+        0_u32
+            .wrapping_sub(magic)
+            .wrapping_sub(arch as u32)
+            .wrapping_sub(length)
     }
 
     /// Returns the header magic.
